@@ -32,8 +32,9 @@ import json,sys
 p,t,execs,cov,corp,seed=sys.argv[1:7]
 try:
     e=json.load(open(p))
-    e.setdefault("coverage",{}).setdefault("notes",[]).append(f"libFuzzer target {t}: {execs} executions, {cov} coverage edges, corpus {corp} files, seed {seed} (ASan, overflow checks on)")
-    e["evaluations"]=int(e.get("evaluations",0))+int(execs or 0)
+    e.setdefault("coverage",{}).setdefault("notes",[]).append(f"libFuzzer target {t}: {execs} executions, {cov} coverage edges, corpus {corp} files (inputs that reached new coverage; counted as the distinct non-trivial cases of this sub-check), seed {seed} (ASan, overflow checks on)")
+    e["coverage"]["evaluations"]=int(e["coverage"].get("evaluations",0))+int(execs or 0)
+    e["coverage"].setdefault("sub_checks",{})["libfuzzer:"+t]={"evaluations":int(execs or 0),"distinct_nontrivial":int(corp or 0),"excluded_known":0,"exhaustive":False}
     json.dump(e,open(p,"w"),indent=1)
 except Exception as ex:
     print("could not annotate evidence:",ex)
